@@ -101,7 +101,8 @@ CHECKS = {
         "technique": "Actions.tla symbolic evaluation (uninterpreted user actions as terms, documented defaults and built-ins) of the recorded derivation tree vs the recorded results of the three action routes (ActCheck.tla), TLC",
         "level": "For every explored grammar, action table and LR-accepted sentence the result of actions during parsing, of build_tree + call_actions and of GLR single tree + "
                  "call_actions must each equal Actions!Eval of that route's tree (argument order, alternative index, named matches, ?= truthiness, default nesting, collect/optional/"
-                 "separator built-ins, spans handed to actions), and the routes must agree with spans stripped.",
+                 "separator built-ins, spans handed to actions; stateful counting actions: the order of the calls is the order of the LR reductions), and the routes must agree with spans stripped; "
+                 "half of the cases use a Grammar object that served another, total action table before.",
         "note": "Trusted: TLC, the tagging of Python results (harness/stage_act.tagval), the recording actions. Bounded: small grammars with <= 3 nonterminals, sentences <= 9 tokens.",
     },
     "C11": {
